@@ -1,2 +1,225 @@
-use crate::Scenario;
-pub fn scenarios() -> Vec<Scenario> { vec![] }
+//! C18 (Taproot suite only): the 64-byte signature verifies with an INDEPENDENT BIP-340 verifier
+//! (libsecp256k1, see indep.rs) under the x-only output key computed as in BIP-341 from the internal
+//! key and the script-tree root (computed independently with sha2 + libsecp256k1), for dealer and DKG
+//! keys, with and without root, in every parity case; not under the untweaked key when a tweak was
+//! requested; share verification and cheater identification agree in every parity case; the DKG
+//! outputs the key-path-only tweaked key.
+
+use std::collections::BTreeMap;
+
+use frost_core as fc;
+use frost_core::keys::CoefficientCommitment;
+use frost_core::Group;
+use frost_secp256k1_tr as tr;
+use frost_secp256k1_tr::keys::Tweak;
+use serde_json::json;
+
+use crate::common::*;
+use crate::indep::{bip340_verify, bip341_output_key};
+use crate::rng::TestRng;
+use crate::{scn_tr, Scenario};
+
+type T = tr::Secp256K1Sha256TR;
+
+pub fn scenarios() -> Vec<Scenario> {
+    vec![scn_tr!(scenario_taproot_signing), scn_tr!(scenario_taproot_dkg_key), scn_tr!(scenario_taproot_cheaters)]
+}
+
+fn xonly(vk: &fc::VerifyingKey<T>) -> Result<(Vec<u8>, bool), Stop> {
+    let b = vkey_bytes::<T>(vk);
+    match (b.first(), b.get(1..33)) {
+        (Some(tag), Some(x)) if b.len() == 33 => Ok((x.to_vec(), *tag == 0x03)),
+        _ => skip("verifying key is not a 33-byte SEC1 encoding"),
+    }
+}
+
+/// None = plain signing (no tweak requested), Some(None) = key-path-only tweak, Some(Some(root))
+fn choose_tweak(rng: &mut TestRng, notes: &mut Notes) -> Option<Option<Vec<u8>>> {
+    let t = match rng.below(5) {
+        0 => None,
+        1 => Some(None),
+        2 => {
+            // the API takes arbitrary tweak data; BIP-341 hashes all of it
+            let len = [0usize, 1, 31, 33, 64, 100][rng.below(6)];
+            Some(Some(rng.bytes(len)))
+        }
+        _ => Some(Some(rng.bytes(32))),
+    };
+    notes.insert(
+        "tweak".into(),
+        match &t {
+            None => json!("none requested"),
+            Some(None) => json!("key-path only (no merkle root)"),
+            Some(Some(r)) => json!(format!("merkle root {}", hex(r))),
+        },
+    );
+    t
+}
+
+struct TrSession {
+    keys: Keys<T>,
+    signers: Vec<Id<T>>,
+    package: fc::SigningPackage<T>,
+    shares: BTreeMap<Id<T>, fc::round2::SignatureShare<T>>,
+    tweak: Option<Option<Vec<u8>>>,
+}
+
+fn tr_session(rng: &mut TestRng, p: &Params, notes: &mut Notes, strict: bool) -> Result<TrSession, Stop> {
+    let keys = keygen::<T>(rng, p, false)?;
+    let signers = signer_ids::<T>(&keys, p);
+    let tweak = choose_tweak(rng, notes);
+    let (nonces, commitments) = commit_all::<T>(rng, &keys.key_packages, &signers)?;
+    let package = fc::SigningPackage::<T>::new(commitments, &p.message);
+    let mut shares = BTreeMap::new();
+    for id in &signers {
+        let (kp, n) = match (keys.key_packages.get(id), nonces.get(id)) {
+            (Some(k), Some(n)) => (k, n),
+            _ => return skip("internal"),
+        };
+        let r = match &tweak {
+            None => tr::round2::sign(&package, n, kp),
+            Some(root) => tr::round2::sign_with_tweak(&package, n, kp, root.as_deref()),
+        };
+        shares.insert(*id, step(strict, r, "Taproot round2::sign / sign_with_tweak by an honest signer")?);
+    }
+    Ok(TrSession {
+        keys,
+        signers,
+        package,
+        shares,
+        tweak,
+    })
+}
+
+fn aggregate(s: &TrSession, shares: &BTreeMap<Id<T>, fc::round2::SignatureShare<T>>) -> Result<fc::Signature<T>, FErr<T>> {
+    match &s.tweak {
+        None => tr::aggregate(&s.package, shares, &s.keys.pubkeys),
+        Some(root) => tr::aggregate_with_tweak(&s.package, shares, &s.keys.pubkeys, root.as_deref()),
+    }
+}
+
+pub fn scenario_taproot_signing(rng: &mut TestRng, p: &Params, notes: &mut Notes) -> Verdict {
+    let s = tr_session(rng, p, notes, true)?;
+    let sig = must(aggregate(&s, &s.shares), "Taproot aggregate / aggregate_with_tweak of honest shares")?;
+    let sig_bytes = must(sig.serialize(), "Signature::serialize")?;
+    check(sig_bytes.len() == 64, "the Taproot signature encoding has 64 bytes", "64", sig_bytes.len().to_string())?;
+    let (internal_x, internal_odd) = xonly(s.keys.pubkeys.verifying_key())?;
+    // expected output key, computed without the library
+    let (expected_x, expected_odd) = match &s.tweak {
+        None => (internal_x.clone(), internal_odd),
+        Some(root) => {
+            let (x, odd) = need(bip341_output_key(&internal_x, root.as_deref()), "independent BIP-341 computation")?;
+            (x.to_vec(), odd)
+        }
+    };
+    let r_odd = elem_bytes::<T>(sig.R()).first() == Some(&0x03);
+    notes.insert("parity".into(), json!({"internal_key_odd": internal_odd, "output_key_odd": expected_odd, "group_commitment_odd": r_odd}));
+    // the library's own idea of the output key
+    if let Some(root) = &s.tweak {
+        let tweaked = s.keys.pubkeys.clone().tweak(root.as_deref());
+        let (lib_x, lib_odd) = xonly(tweaked.verifying_key())?;
+        check(
+            lib_x == expected_x && lib_odd == expected_odd,
+            "the tweaked group key equals the BIP-341 output key Q = lift_x(P) + hashTapTweak(P || root) G (independent computation)",
+            format!("{} (odd y: {expected_odd})", hex(&expected_x)),
+            format!("{} (odd y: {lib_odd})", hex(&lib_x)),
+        )?;
+        must(tweaked.verifying_key().verify(&p.message, &sig), "the signature verifies under the tweaked key (library verifier)")?;
+    } else {
+        must(s.keys.pubkeys.verifying_key().verify(&p.message, &sig), "the signature verifies under the group key (library verifier)")?;
+    }
+    // independent BIP-340 verification under the x-only output key
+    must(
+        bip340_verify(&expected_x, &p.message, &sig_bytes),
+        "independent BIP-340 verification (libsecp256k1) of the 64-byte signature under the BIP-341 x-only output key",
+    )?;
+    // not under the untweaked key when a tweak was requested
+    if s.tweak.is_some() {
+        if bip340_verify(&internal_x, &p.message, &sig_bytes).is_ok() {
+            return fail("the signature does not verify under the untweaked key (independent verifier)", "Err(..)", "Ok(())");
+        }
+        if s.keys.pubkeys.verifying_key().verify(&p.message, &sig).is_ok() {
+            return fail("the signature does not verify under the untweaked key (library verifier)", "Err(..)", "Ok(())");
+        }
+    }
+    // every honest share passes the share check against the (tweaked) public key package
+    let pkp = match &s.tweak {
+        None => s.keys.pubkeys.clone(),
+        Some(root) => s.keys.pubkeys.clone().tweak(root.as_deref()),
+    };
+    for (id, sh) in &s.shares {
+        let vs = match pkp.verifying_shares().get(id) {
+            Some(v) => v,
+            None => return fail("tweaked public key package keeps every participant", id_hex::<T>(id), "missing"),
+        };
+        must(
+            fc::verify_signature_share::<T>(*id, vs, sh, &s.package, pkp.verifying_key()),
+            &format!("verify_signature_share of an honest Taproot share (group commitment odd: {r_odd}, internal key odd: {internal_odd}, output key odd: {expected_odd})"),
+        )?;
+    }
+    Ok(())
+}
+
+/// The DKG outputs the key-path-only tweaked key: Q = lift_x(P) + hashTapTweak(P) G with P the sum of
+/// the participants' constant-term commitments.
+pub fn scenario_taproot_dkg_key(rng: &mut TestRng, p: &Params, notes: &mut Notes) -> Verdict {
+    let ids = make_ids::<T>(&p.ids)?;
+    let run = dkg_rounds::<T>(rng, &ids, p.n, p.t, false)?;
+    let fin = dkg_finish::<T>(&run, false)?;
+    let mut sum = <Gr<T> as Group>::identity();
+    for pkg in run.r1_pkg.values() {
+        let c0 = pkg.commitment().serialize().ok().and_then(|v| v.first().cloned());
+        match c0.and_then(|b| CoefficientCommitment::<T>::deserialize(&b).ok()) {
+            Some(c) => sum = sum + c.value(),
+            None => return skip("constant-term commitment"),
+        }
+    }
+    let pb = elem_bytes::<T>(&sum);
+    let internal_x = match pb.get(1..33) {
+        Some(x) => x.to_vec(),
+        None => return skip("sum encoding"),
+    };
+    let (qx, q_odd) = need(bip341_output_key(&internal_x, None), "independent BIP-341 computation")?;
+    notes.insert("parity".into(), json!({"untweaked_sum_odd": pb.first() == Some(&0x03), "output_key_odd": q_odd}));
+    for (id, (kp, pkp)) in &fin {
+        let (x, odd) = xonly(pkp.verifying_key())?;
+        check(
+            x == qx.to_vec() && odd == q_odd,
+            "the DKG group key is the key-path-only BIP-341 output key of the sum of the constant-term commitments",
+            format!("{} (odd y: {q_odd})", hex(&qx)),
+            format!("{} (odd y: {odd}) at participant {}", hex(&x), id_hex::<T>(id)),
+        )?;
+        check(kp.verifying_key() == pkp.verifying_key(), "key package carries the tweaked key", "equal", "different")?;
+    }
+    Ok(())
+}
+
+pub fn scenario_taproot_cheaters(rng: &mut TestRng, p: &Params, notes: &mut Notes) -> Verdict {
+    let s = tr_session(rng, p, notes, false)?;
+    let honest = need(aggregate(&s, &s.shares), "honest Taproot aggregation")?;
+    let (_, internal_odd) = xonly(s.keys.pubkeys.verifying_key())?;
+    let r_odd = elem_bytes::<T>(honest.R()).first() == Some(&0x03);
+    notes.insert("parity".into(), json!({"internal_key_odd": internal_odd, "group_commitment_odd": r_odd}));
+    let cheater = match s.signers.get(rng.below(s.signers.len())) {
+        Some(c) => *c,
+        None => return skip("internal"),
+    };
+    notes.insert("cheater_hex".into(), json!(id_hex::<T>(&cheater)));
+    let mut shares = s.shares.clone();
+    if let Some(old) = s.shares.get(&cheater) {
+        // a typical parity slip: the negated share; or a random offset
+        let z = sigshare_scalar::<T>(old)?;
+        let new = if rng.chance(50) { zero::<T>() - z } else { z + random_nonzero_scalar::<T>(rng) };
+        if new == z {
+            return skip("share unchanged");
+        }
+        shares.insert(cheater, make_sigshare::<T>(&new)?);
+    }
+    let e = must_refuse(aggregate(&s, &shares), "Taproot aggregation with one altered share")?;
+    check(
+        e.culprits() == vec![cheater],
+        &format!("Taproot cheater identification names exactly the cheater (group commitment odd: {r_odd}, internal key odd: {internal_odd})"),
+        format!("[{}]", id_hex::<T>(&cheater)),
+        format!("{:?} ({})", culprits_hex::<T>(&e), short_dbg(&e)),
+    )
+}
